@@ -244,6 +244,15 @@ def refLoop (mroOf : Path → List Path) (exist : Path → Bool) (change : Bool)
     if change then changeRefSub mroOf exist mode sub space value
     else newRefSub mroOf exist mode sub space value)
 
+/-- the whole of `new_ref` / `change_ref` for the sub spaces that take the value (`subs`: those that
+neither define the name nor derive it from a base preceding the space - what `_check_subs_relrefs`
+looks at since the repair 004f472, for both operations): refused (`none`) before anything is changed
+when the check raises for one of them, otherwise every one of them gets its derived reference -/
+def setRefGuarded (mroOf : Path → List Path) (exist : Path → Bool) (change : Bool) (mode : Mode)
+    (space : Path) (value : Target) (subs : List Path) : Option (List (Option DRef)) :=
+  if subs.any (fun sub => checkSubRelref mroOf mode sub space value) then Option.none
+  else Option.some (refLoop mroOf exist change mode space value subs)
+
 /-! ## dynamic spaces: `DynBaseRefDict.wrap_impl` -/
 
 /-- the test `impl.startswith(root + ".")` and the name list `impl[rootlen+1:].split(".")`, on
